@@ -6,7 +6,7 @@ TERMS = ["a", "b", "c"]
 DYADIC = [Fraction(1, 2), Fraction(1, 4), Fraction(1, 8), Fraction(3, 8), Fraction(1, 16), Fraction(3, 16), Fraction(1), Fraction(5, 8), Fraction(3, 4)]
 SMALL = [Fraction(1, 2), Fraction(1, 4), Fraction(1, 8), Fraction(3, 8), Fraction(1, 16), Fraction(3, 16)]
 
-CFG_SHAPES = ["plain", "nullable", "nullable_run", "nullable_run", "mutual_left_rec", "lc_unary_cycle", "cnf_like", "mutual3", "nullable_cycle", "unary_chain", "unary_cycle", "unary_cycle", "left_rec", "right_rec",
+CFG_SHAPES = ["plain", "nullable", "nullable_run", "nullable_run", "mutual_left_rec", "lc_unary_cycle", "cnf_like", "mutual3", "nullable_cycle", "unary_chain", "unary_cycle", "unary_cycle", "unary_scc_chord", "left_rec", "right_rec",
               "useless", "nongen_start", "dup_rules", "start_on_rhs", "repeat_sym", "undefined_nt", "mixed",
               "empty_lang", "eps_only"]
 
@@ -120,6 +120,17 @@ def gen_cfg(rng, shape=None, nnt=None, nterms=None, convergent=True, maxrules=8,
             if rng.random() < 0.7:
                 rules.append([rng.choice(SMALL), X, [rng.choice(nts), rng.choice(nts)]])
         rules.append([rng.choice(SMALL), "S", ["S", rng.choice(nts)] if rng.random() < 0.5 else [rng.choice(nts), "S"]])
+    elif shape == "unary_scc_chord":
+        # a unary component that is NOT a simple cycle (A->R, R->A, B->R, A->B): whether a depth-first search sees the edge into
+        # an explored, unfinished, non-ancestor node depends on the iteration order, i.e. on the names
+        pool = rng.sample(["Qa", "Qb", "Qc", "Qd", "Qe", "Qf", "Qg"], 3)
+        a_, r_, b_ = pool
+        for x, y in ((a_, r_), (r_, a_), (b_, r_), (a_, b_)):
+            rules.append([rng.choice(SMALL) / 2, x, [y]])
+        rules.append([rng.choice(W), rng.choice(pool), [rng.choice(terms)]])
+        rules.append([rng.choice(W), "S", [rng.choice(pool)]])
+        if rng.random() < 0.5:
+            rules.append([rng.choice(W), "S", [rng.choice(terms), rng.choice(pool)]])
     elif shape == "mutual3":
         # three (or four) mutually recursive nonterminals with chords: one SCC that a DFS can enter and close in many orders
         m = [f"M{k}" for k in rng.sample(range(9), rng.choice([3, 3, 4]))]
@@ -229,10 +240,22 @@ def gen_cfg(rng, shape=None, nnt=None, nterms=None, convergent=True, maxrules=8,
     return desc, shape
 
 
-def intify_terms(desc, *string_lists):
+def reconverge(desc, rng=None):
+    """re-establish geometric convergence after a plug-in has ADDED rules to a generated grammar (the added mass can push a
+    recursive nonterminal over the edge: Z = c + w·Z² has no finite solution once 4wc > 1)"""
+    V = set(desc["V"])
+    rules = [[Fraction(w) if not isinstance(w, bool) else w, h, list(b)] for w, h, b in desc["rules"]]
+    if any(isinstance(r[0], bool) for r in rules):
+        return desc
+    rules = make_convergent(rules, V, rng)
+    return {**desc, "rules": [[frac_str(w), h, b] for w, h, b in rules]}
+
+
+def intify_terms(desc, *string_lists, offset=0):
     """rename the terminals to the integers 0, 1, … (token ids): `0` is a FALSY terminal, as are the NUL byte and `()`;
+    with offset = -len(V) the ids are -n … -1, so that `renumber()` starts its names at 0 (a falsy START symbol);
     returns (desc', renamed string lists)"""
-    m = {v: k for k, v in enumerate(desc["V"])}
+    m = {v: k + offset for k, v in enumerate(desc["V"])}
     f = lambda y: m.get(y, y) if isinstance(y, str) else y  # noqa
     d = {**desc, "V": [m[v] for v in desc["V"]], "rules": [[w, h, [f(y) for y in b]] for w, h, b in desc["rules"]]}
     return d, [[[f(y) for y in x] for x in xs] for xs in string_lists], m
@@ -444,7 +467,7 @@ def gen_fst(rng, shape=None, nstates=None, in_syms=None, out_syms=None):
             a = ""
         if shape in ("eps_eps", "cyclic") and rng.random() < 0.3:
             a, b = rng.choice([("", ""), ("", b), (a, "")])
-        arcs.append([states[i], a, b, states[j], rng.choice(W if a and b else SMALL)])
+        arcs.append([states[i], a, b, states[j], rng.choice(W if a != "" and b != "" else SMALL)])
     if arcs and rng.random() < 0.4:
         # parallel arcs: same states and same label on one tape, different label on the other
         e = rng.choice(arcs)
